@@ -108,13 +108,20 @@ def execute(case, result):
     elif kind == "relative":
         svc = RelativeSupplyController(pool, **kw)
     elif kind == "stepwise":
+        returned = []  # (time, value) of every rule call
+
         def base(p, itv):
             steps.append((vt.clock(), itv))
-            return None if p.peek()["supply"] % 2 else p.peek()["demand"] + 1
+            supply = p.peek()["supply"]
+            value = None if supply % 2 else (0 if supply % 3 == 0 else p.peek()["demand"] + 1)
+            returned.append((vt.clock(), value))
+            return value
 
         def upper(p, itv):
             steps.append((vt.clock(), itv))
-            return 5
+            value = 0.0 if p.peek()["supply"] % 5 == 0 else 5
+            returned.append((vt.clock(), value))
+            return value
 
         svc = Stepwise(pool, base, (20, upper), **kw)
     elif kind == "switch":
@@ -211,6 +218,17 @@ def execute(case, result):
             bad("steps at %r..., expected one at start + k*interval: %r... (%d vs %d steps)"
                 % (times[:6], expected_steps[:6], len(times), len(expected_steps)))
         result.count("steps_checked", len(times))
+        if kind == "stepwise":
+            writes = {e[3]: e[2] for e in pool.log if e[0] == "w"}
+            for when, value in returned:
+                if value is None:
+                    if when in writes:
+                        bad("the step at %r wrote %r although its rule returned None" % (when, writes[when]))
+                        break
+                elif when not in writes or writes[when] != value or type(writes[when]) is not type(value):
+                    bad("the step at %r computed demand %r but the pool received %r" % (when, value, writes.get(when, "nothing")))
+                    break
+                result.count("stepwise_step_effects_checked")
         if kind == "switch":
             series = [(start, case["params"].get("start_demand", 10))] + [(e[3], e[2]) for e in pool.log if e[0] == "w"]
             for (ta, da), (tb, db) in zip(series, series[1:]):
@@ -320,7 +338,7 @@ def run_shard(spec):
 def finish(total, tier):
     need = ["%s_runs" % k for k in KINDS] + ["steps_checked", "linear_pairs_checked", "buffer_target_writes",
                                               "buffer_boundaries_checked", "factory_adjustments_checked", "factory_children_spawned",
-                                              "factory_needed_adjustments_observed", "switch_slave_steps_checked"]
+                                              "factory_needed_adjustments_observed", "switch_slave_steps_checked", "stepwise_step_effects_checked"]
     for name in need:
         if not total.counters.get(name) and not total.violations:
             total.inconc("monitor never observed: " + name)
